@@ -540,9 +540,13 @@ class Function(object):
 
         """
 
+        # Stored points are pruned when they are added: compare with the pruned decomposition of "point",
+        # so that explicit zero coefficients (e.g. in 0 * x) do not hide an existing evaluation.
+        pruned_decomposition_dict = prune_dict(point.decomposition_dict)
+
         # Browse the list of point "self" has been evaluated on
         for triplet in self.list_of_points:
-            if triplet[0].decomposition_dict == point.decomposition_dict:
+            if triplet[0].decomposition_dict == pruned_decomposition_dict:
                 # If "self" has been evaluated on "point", then break the loop and return its corresponding data
                 return triplet[1:]
 
